@@ -75,6 +75,41 @@ theorem genErr_full (e : LZ.Err) : genErr e = Gen.ErrFullBuffer ↔ e = .full :=
 theorem genErr_eof (e : LZ.Err) : genErr e = Gen.io_EOF ↔ e = .eof :=
   ⟨fun h => genErr_injective e .eof h, fun h => by rw [h]; rfl⟩
 
+/-! the same with the operands the other way round (`ErrEmptyBuffer == err`) -/
+
+theorem genErr_ok' (e : LZ.Err) : Gen.Err.ok = genErr e ↔ e = .ok := by
+  rw [eq_comm]; exact genErr_ok e
+
+theorem genErr_empty' (e : LZ.Err) : Gen.ErrEmptyBuffer = genErr e ↔ e = .empty := by
+  rw [eq_comm]; exact genErr_empty e
+
+theorem genErr_full' (e : LZ.Err) : Gen.ErrFullBuffer = genErr e ↔ e = .full := by
+  rw [eq_comm]; exact genErr_full e
+
+theorem genErr_eof' (e : LZ.Err) : Gen.io_EOF = genErr e ↔ e = .eof := by
+  rw [eq_comm]; exact genErr_eof e
+
+/-- `wrap_dec` proves a test of the translated code, or its negation, from the case facts about
+    the MODEL values that are in the context — whichever way the source spells the test: linear
+    arithmetic (`k == 0`, `k != 0`, `0 == k`, …) by `omega`; tests on error values (`err == E`,
+    `err != E`, `E == err`, `!(…)`, `&&`, `||`) by translating them into tests on the model's
+    errors (`genErr_*`, injectivity of `genErr`) and looking them up among the hypotheses.  It
+    fails when the context does not decide the test. -/
+macro "wrap_dec" : tactic => `(tactic| first
+  | omega
+  | assumption
+  | (simp only [genErr_ok, genErr_ok', genErr_empty, genErr_empty', genErr_full, genErr_full',
+      genErr_eof, genErr_eof', ne_eq, Classical.not_not, not_true_eq_false, not_false_eq_true,
+      eq_self, reduceCtorEq, Int.natCast_eq_zero, and_true, true_and, and_false, false_and,
+      or_true, true_or, or_false, false_or, *] <;> fail)
+  | fail "wrap_dec: the context does not decide this test")
+
+/-- `wrap_ifs` resolves every `if` (of the translated code and of the model) whose test
+    `wrap_dec` decides, and the `Res.bind`s that become visible.  Nothing is said about the text
+    of a test, the order of the arms or the nesting. -/
+macro "wrap_ifs" : tactic =>
+  `(tactic| simp (disch := wrap_dec) only [if_pos, if_neg, bind_ok, bind_panic])
+
 /-- a concrete representation of a model block (the theorems hold for every `rb`) -/
 def repSeq (s : LZ.Seq) : Gen.Seq :=
   { LitLen := UInt32.ofNat s.litLen, MatchLen := UInt32.ofNat s.matchLen,
@@ -223,49 +258,36 @@ theorem loop_spec (rb : LZ.Block → Gen.Block') (flags : Nat) (J : Wrapped → 
     have hstep := hJ wp hwp
     have hcons := readFrom_consumes (wp.s.parse flags).1.shrink.1 wp.r
     rw [Wrapped.parse_eq]
-    show fin (Gen.WrappedParser_Parse_loop_1 (mParse rb) mShrink mReadFrom (flags : Int) (f + 1)
-        { r := wp.r, s := wp.s } blk0 n0 e0 r1 r2) = _
-    simp only [Gen.WrappedParser_Parse_loop_1]
-    rw [mParse_nat]
+    -- one round of the translated loop; the callees are replaced by their definitions
+    simp only [Gen.WrappedParser_Parse_loop_1, rep, mParse_nat]
     rcases hpp : wp.s.parse flags with ⟨s1, n, e, blk⟩
     simp only [hpp] at hstep hcons ⊢
     by_cases hep : e = .panic
     · -- `Parse` panics
       subst hep
-      simp [fin, out]
-    · rw [if_neg hep, bind_ok]
-      simp only []
+      wrap_ifs <;> simp [fin, out]
+    · simp (disch := wrap_dec) only [if_pos, if_neg, bind_ok, mShrink, mReadFrom]
+      rcases hrf : s1.shrink.1.readFrom wp.r with ⟨s3, r', k, e2⟩
+      simp only [hrf] at hstep hcons ⊢
+      -- the cases of the MODEL; in each of them `wrap_ifs` decides the tests of the translated
+      -- code as they come (any spelling, any order of the arms, any nesting)
       by_cases hee : e = .empty
       · subst hee
-        have h1 : ¬ (genErr LZ.Err.empty ≠ Gen.ErrEmptyBuffer) := fun h => h rfl
-        have h2 : ¬ (LZ.Err.empty ≠ LZ.Err.empty) := fun h => h rfl
-        rw [if_neg h1, if_neg h2]
-        simp only [mShrink, bind_ok]
-        simp only [mReadFrom]
         specialize hstep rfl
-        rcases hrf : s1.shrink.1.readFrom wp.r with ⟨s3, r', k, e2⟩
-        simp only [hrf] at hstep hcons ⊢
         by_cases hk : k = 0
         · subst hk
           by_cases he2 : e2 = .panic
           · subst he2
-            simp [fin, out]
-          · rw [if_neg he2, bind_ok]
-            by_cases hfu : e2 = .full
+            wrap_ifs <;> simp [fin, out]
+          · by_cases hfu : e2 = .full
             · subst hfu
-              simp [fin, out, genErr]
-            · have : genErr e2 ≠ Gen.ErrFullBuffer := fun h => hfu ((genErr_full e2).1 h)
-              simp [fin, out, hfu, this, he2, rep]
+              wrap_ifs <;> simp [fin, out, genErr]
+            · wrap_ifs <;> simp [fin, out, rep, he2]
         · obtain ⟨he2, hJ'⟩ := hstep hk
           have hlt := hcons hk
-          have hk' : ¬ ((k : Int) = 0) := by omega
-          rw [if_neg he2, bind_ok]
-          -- the test is `k = 0` (else: continue) or `k ≠ 0` (then: continue), whichever way the source spells it
-          simp only [hk', hk, ne_eq, not_false_eq_true, if_false, if_neg, hlt, if_true]
+          wrap_ifs
           exact ih ⟨r', s3⟩ hJ' (by simp only []; omega) _ _ _ _ _
-      · have h1 : genErr e ≠ Gen.ErrEmptyBuffer := fun h => hee ((genErr_empty e).1 h)
-        rw [if_pos h1, if_pos hee]
-        simp [fin, out, hep, rep]
+      · wrap_ifs <;> simp [fin, out, rep, hep]
 
 /-- **`WrappedParser.Parse`, general form.**  For every `J` closed under the refill step on which
     no `ReadFrom` panics after having read something, every state `wp` with `J wp`, every incoming
@@ -376,44 +398,33 @@ theorem loop_specT (rb : LZ.Block → Gen.Block') (flags : Nat) (J : Wrapped →
     have hstep := hJ wp hwp
     have hcons := readFrom_consumes (wp.s.parse flags).1.shrink.1 wp.r
     rw [Wrapped.parse_eq]
-    show fin (Gen.WrappedParser_Parse_loop_1 (mParse rb) mShrink mReadFromT (flags : Int) (f + 1)
-        { r := wp.r, s := wp.s } blk0 n0 e0 r1 r2) = _
-    simp only [Gen.WrappedParser_Parse_loop_1]
-    rw [mParse_nat]
+    -- one round of the translated loop; the callees are replaced by their definitions
+    simp only [Gen.WrappedParser_Parse_loop_1, rep, mParse_nat]
     rcases hpp : wp.s.parse flags with ⟨s1, n, e, blk⟩
     simp only [hpp] at hstep hcons ⊢
     by_cases hep : e = .panic
-    · subst hep
-      simp [fin, out]
-    · rw [if_neg hep, bind_ok]
-      simp only []
+    · -- `Parse` panics
+      subst hep
+      wrap_ifs <;> simp [fin, out]
+    · simp (disch := wrap_dec) only [if_pos, if_neg, bind_ok, mShrink, mReadFromT]
+      rcases hrf : s1.shrink.1.readFrom wp.r with ⟨s3, r', k, e2⟩
+      simp only [hrf] at hstep hcons ⊢
+      -- the cases of the MODEL; in each of them `wrap_ifs` decides the tests of the translated
+      -- code as they come (any spelling, any order of the arms, any nesting)
       by_cases hee : e = .empty
       · subst hee
-        have h1 : ¬ (genErr LZ.Err.empty ≠ Gen.ErrEmptyBuffer) := fun h => h rfl
-        have h2 : ¬ (LZ.Err.empty ≠ LZ.Err.empty) := fun h => h rfl
-        rw [if_neg h1, if_neg h2]
-        simp only [mShrink, bind_ok]
-        simp only [mReadFromT]
         specialize hstep rfl
-        rcases hrf : s1.shrink.1.readFrom wp.r with ⟨s3, r', k, e2⟩
-        simp only [hrf] at hstep hcons ⊢
         obtain ⟨he2, hJ'⟩ := hstep
-        rw [bind_ok]
         by_cases hk : k = 0
         · subst hk
           by_cases hfu : e2 = .full
           · subst hfu
-            simp [fin, out, genErr]
-          · have : genErr e2 ≠ Gen.ErrFullBuffer := fun h => hfu ((genErr_full e2).1 h)
-            simp [fin, out, hfu, this, he2, rep]
+            wrap_ifs <;> simp [fin, out, genErr]
+          · wrap_ifs <;> simp [fin, out, rep, he2]
         · have hlt := hcons hk
-          have hk' : ¬ ((k : Int) = 0) := by omega
-          -- the test is `k = 0` (else: continue) or `k ≠ 0` (then: continue), whichever way the source spells it
-          simp only [hk', hk, ne_eq, not_false_eq_true, if_false, if_neg, hlt, if_true]
+          wrap_ifs
           exact ih ⟨r', s3⟩ (hJ' hk) (by simp only []; omega) _ _ _ _ _
-      · have h1 : genErr e ≠ Gen.ErrEmptyBuffer := fun h => hee ((genErr_empty e).1 h)
-        rw [if_pos h1, if_pos hee]
-        simp [fin, out, hep, rep]
+      · wrap_ifs <;> simp [fin, out, rep, hep]
 
 theorem readSafeT_WInv {I : Parser → Prop} (hP : ParseSpec I) (flags : Nat) :
     ReadSafeT flags (fun w => ∃ fed, WInv I w fed) := by
@@ -462,13 +473,13 @@ theorem gen_wrapped_reset (wp : Wrapped) (r : Reader) :
   have hd : Gen.Slice.nil.data = [] := rfl
   have hc : Gen.Slice.nil.arr.length - Gen.Slice.nil.len = 0 := rfl
   simp only [Gen.WrappedParser_Reset, mReset, Wrapped.reset, hd, hc]
+  -- the cases of the MODEL; `wrap_ifs` decides the test of the translated code however it is spelt
   by_cases hp : (wp.s.reset [] 0).2 = .panic
-  · have hok : (wp.s.reset [] 0).2 ≠ .ok := by rw [hp]; simp
-    simp [hp]
+  · have hok : ¬ (wp.s.reset [] 0).2 = .ok := by rw [hp]; simp
+    wrap_ifs
   · by_cases hok : (wp.s.reset [] 0).2 = .ok
-    · simp [hok, genErr]
-    · have : genErr (wp.s.reset [] 0).2 ≠ Gen.Err.ok := fun h => hok ((genErr_ok _).1 h)
-      simp [this, hok, hp]
+    · wrap_ifs
+    · wrap_ifs
 
 /-- the model's `Parser.reset [] 0` never fails, so `Reset` returns -/
 theorem gen_wrapped_reset_ok (wp : Wrapped) (r : Reader) :
